@@ -448,3 +448,41 @@ def observe(modname: str, with_calls: bool = True, prepared=None) -> dict:
     if with_calls:
         out["calls"] = call_functions(mod, prepared=prepared)
     return out
+
+
+# ------------------------------------------------------------------ the repo's own tests (thorough tier)
+
+
+def test_file_for(modname: str, repo: str):
+    import os  # pylint: disable=import-outside-toplevel
+    parts = modname.split(".")[1:]
+    if parts[0] == "laws":
+        parts = parts[1:]
+    path = os.path.join(repo, "test", *parts) + "_test.py"
+    return path if os.path.isfile(path) else None
+
+
+def run_repo_tests(modname: str, repo: str) -> dict:
+    """Runs the module's own test file inside this (perturbed) process; outcome per test id."""
+    import pytest  # pylint: disable=import-outside-toplevel
+    path = test_file_for(modname, repo)
+    if path is None:
+        return {}
+    outcomes = {}
+
+    class Collect:
+
+        def pytest_runtest_logreport(self, report):  # pylint: disable=no-self-use
+            if report.when == "call" or (report.when == "setup" and report.outcome != "passed"):
+                outcomes[report.nodeid.split("::", 1)[-1]] = report.outcome
+
+    try:
+        import contextlib  # pylint: disable=import-outside-toplevel
+        import io  # pylint: disable=import-outside-toplevel
+        with timebox(120), contextlib.redirect_stdout(io.StringIO()), contextlib.redirect_stderr(io.StringIO()):
+            pytest.main([path, "-q", "-p", "no:cacheprovider", "-p", "no:randomly", "--no-header", "-x", "--timeout=100", "-o", "addopts="], plugins=[Collect()])
+    except _Timeout:
+        return {"<file>": "timeout"}
+    except BaseException as ex:  # pylint: disable=broad-except
+        return {"<file>": "error:" + type(ex).__name__}
+    return outcomes
